@@ -60,20 +60,25 @@ def parseUpdate (r : Raw) : Tp × Option Bool :=
                   latency := r.lat, timeoutUs := r.to * 10000 }
   (p, if p.winOffset ≤ p.interval then checkTiming p else some false)
 
-/-- the `start_receive` / `end_receive` arguments of `schedule_connection_event()` -/
+/-- `setup_next_connection_event` with the window widening `w` (time ↦ clock drift over that time) -/
 -- src: link_layer.hpp:setup_next_connection_event
-def window (ts winSize winOffset sca : Nat) : Option (Nat × Nat) :=
+def windowWith (w : Nat → Nat) (ts winSize winOffset : Nat) : Option (Nat × Nat) :=
   if winSize ≠ 0 then do
     let ws ← dtAdd ts winOffset
     let we ← dtAdd ws winSize
-    let ws' ← dtSub ws (ppm ws sca)
-    let we' ← dtAdd we (ppm we sca)
+    let ws' ← dtSub ws (w ws)
+    let we' ← dtAdd we (w we)
     some (ws', we')
   else do
-    let w := ppm ts sca
-    let a ← dtSub ts w
-    let b ← dtAdd ts w
+    let a ← dtSub ts (w ts)
+    let b ← dtAdd ts (w ts)
     some (a, b)
+
+/-- the `start_receive` / `end_receive` arguments of `schedule_connection_event()`:
+    the widening is `delta_time::ppm( cumulated_sleep_clock_accuracy_ )` -/
+-- src: link_layer.hpp:setup_next_connection_event
+def window (ts winSize winOffset sca : Nat) : Option (Nat × Nat) :=
+  windowWith (fun u => ppm u sca) ts winSize winOffset
 
 inductive Phase where
   | advertising | connecting | connected | changed
